@@ -1,4 +1,5 @@
 import GqlProofs.Lexer.Pos
+import GqlProofs.Lexer.SpecLex
 /-
   C04 — every reported position is truthful (lexer part).
 
@@ -100,3 +101,63 @@ example : Ascii (str "{ a }") := by
   intro b hb
   simp [str] at hb
   omega
+
+/-! ### positions of the specification's tokens -/
+
+/-- the model token the specification prescribes for its token `s` of source `inp`: kind, value,
+    extent from the lexical grammar, line and column from the position specification
+    (`Spec.toToken`), with the recorded `+ 1` on the column of String tokens -/
+def specTokenView (inp : Bytes) (s : STok) : Token :=
+  { Spec.toToken inp s with col := colOfOffset inp s.start + (if s.kind = .string then 1 else 0) }
+
+theorem tokens_eq_of_obs (inp : Bytes) : ∀ (ts : List Token) (toks : List STok),
+    ts.map obsT = toks.map obsS → (∀ t ∈ ts, TokenTruthful inp t) → ts = toks.map (specTokenView inp) := by
+  intro ts
+  induction ts with
+  | nil => intro toks h _; cases toks with
+    | nil => rfl
+    | cons s r => simp at h
+  | cons t r ih =>
+    intro toks h htr
+    cases toks with
+    | nil => simp at h
+    | cons s r' =>
+      simp only [List.map_cons, List.cons.injEq] at h ⊢
+      obtain ⟨h1, h2⟩ := h
+      refine ⟨?_, ih r' h2 (fun u hu => htr u (List.mem_cons_of_mem _ hu))⟩
+      obtain ⟨_, _, hl, hcol⟩ := htr t (by simp)
+      simp only [obsT, obsS, Prod.mk.injEq] at h1
+      obtain ⟨k1, k2, k3, k4⟩ := h1
+      cases t with
+      | mk kind value start stop line col =>
+        simp only at k1 k2 k3 k4 hl hcol
+        subst k1 k2 k3 k4
+        simp [specTokenView, Spec.toToken, hl, hcol]
+
+/-- Every token of the lexical grammar is reported by the model with exactly the line and column
+    of the position specification: for ASCII sources (block strings as in `C03_lex_ascii`) the
+    model's token list IS the list of the specification's tokens, each with kind / value / extent
+    from `Spec.lex` and line / column from `Spec.lineOf` / `Spec.colOfOffset` (String tokens:
+    column + 1, the recorded known finding), followed by the EOF token or the error. -/
+theorem C04_tokens_are_spec_tokens_ascii (inp : Bytes) (hA : Ascii inp)
+    (hb : BlocksOK (inp.length + 1) inp = true) :
+    match Spec.lex inp with
+    | .ok toks => ∃ eof, lexAll inp = .done (toks.map (specTokenView inp) ++ [eof]) ∧ eof.kind = .eof
+    | .error toks => ∃ e, lexAll inp = .fail (toks.map (specTokenView inp)) e := by
+  have h := lexAll_lex inp hA hb
+  have htr := C04_token_pos_ascii_partial inp hA
+  cases hs : Spec.lex inp with
+  | ok toks =>
+    rw [hs] at h
+    obtain ⟨ts, eof, e1, e2, _, e4⟩ := h
+    rw [e1] at htr
+    have := tokens_eq_of_obs inp ts toks e4 (fun t ht => htr t (by simp [LexOut.tokens, ht]))
+    exact ⟨eof, by rw [e1, this], e2⟩
+  | error toks =>
+    rw [hs] at h
+    obtain ⟨ts, e, e1, e4⟩ := h
+    rw [e1] at htr
+    have := tokens_eq_of_obs inp ts toks e4 (fun t ht => htr t (by simp [LexOut.tokens, ht]))
+    exact ⟨e, by rw [e1, this]⟩
+
+#print axioms C04_tokens_are_spec_tokens_ascii
